@@ -110,3 +110,42 @@ TABLE_DEC += [
      "pre_text": __import__("rs2lean_rns4k").float_erase([('#[cfg(feature = "verif")] crate::verif::sched::yield_at(4);', 1, "")]),
      "model": "dotProductCtSk (index / stride arithmetic, order of the kernel calls)"},
 ]
+
+# `bfv_decrypt` / `ckks_decrypt` / `decrypt`: refusals, order of the opaque steps (1 = dot_product_ct_sk_array, 4 = decrypt_scale_and_round (tied in
+# phase 4k) writing the pseudo-input `dec` into the destination's n words, 5 = set_parms_id(encrypted.parms_id()), 6 = set_scale(encrypted.scale()),
+# 31 / 32 / 33 = dispatch to bfv / ckks / bgv), the sizes of the destination and the trimming.
+SK_BFV = {
+    "sig": "fn bfv_decrypt(is_ntt: bool, n: usize, q_size: usize, dec: &[u64], d: &mut Vec<u64>, plan: &mut Vec<u64>)",
+    "handles": [CD, CD + ".parms()", CD + ".parms().coeff_modulus()"],
+    "exprs": {"encrypted.is_ntt_form()": "is_ntt", CD + ".parms().poly_modulus_degree()": "n", CD + ".parms().coeff_modulus().len()": "q_size",
+              "destination.data()": "d"},
+    "effects": {"destination.set_parms_id(PARMS_ID_ZERO)": "",
+                "destination.resize($c)": "d.resize($c, 0);",
+                "destination.resize($c.max(1))": "d.resize($c.max(1), 0);",
+                "self.dot_product_ct_sk_array(encrypted, &$p)": "plan.push(1);",
+                CD + ".rns_tool().decrypt_scale_and_round(&$p, destination.data_mut())": "plan.push(4); d.copy_from_slice(dec);"},
+}
+SK_CKKS = {
+    "sig": "fn ckks_decrypt(is_ntt: bool, n: usize, q_size: usize, ph: &[u64], d: &mut Vec<u64>, plan: &mut Vec<u64>)",
+    "handles": [CD, CD + ".parms()", CD + ".parms().coeff_modulus()"],
+    "exprs": {"encrypted.is_ntt_form()": "is_ntt", CD + ".parms().poly_modulus_degree()": "n", CD + ".parms().coeff_modulus().len()": "q_size"},
+    "effects": {"destination.set_parms_id(PARMS_ID_ZERO)": "",
+                "destination.resize($c)": "d.resize($c, 0);",
+                "self.dot_product_ct_sk_array(encrypted, destination.data_mut())": "plan.push(1); d.copy_from_slice(ph);",
+                "destination.set_parms_id(*encrypted.parms_id())": "plan.push(5);",
+                "destination.set_scale(encrypted.scale())": "plan.push(6);"},
+}
+SK_DECRYPT = {
+    "match_stmt": True,
+    "sig": "fn decrypt(has_seed: bool, valid: bool, size: usize, scheme_in: SchemeType, plan: &mut Vec<u64>)",
+    "exprs": {"encrypted.contains_seed()": "has_seed", "!encrypted.is_valid_for(&self.context)": "!valid", "encrypted.size()": "size",
+              "self.context.first_context_data().unwrap().parms().scheme()": "scheme_in"},
+    "effects": {"self.bfv_decrypt(encrypted, destination)": "plan.push(31);", "self.ckks_decrypt(encrypted, destination)": "plan.push(32);",
+                "self.bgv_decrypt(encrypted, destination)": "plan.push(33);"},
+}
+TABLE_DEC += [
+    {"file": ENC, "fn": "bfv_decrypt", "impl": "Decryptor", "lean": "dec_bfv_decrypt", "skeleton": SK_BFV, "whole_copy": True, "model": "bfvDecrypt (order, sizes, trimPlain)"},
+    {"file": ENC, "fn": "ckks_decrypt", "impl": "Decryptor", "lean": "dec_ckks_decrypt", "skeleton": SK_CKKS, "whole_copy": True, "model": "ckksDecrypt (the phase itself)"},
+    {"file": ENC, "fn": "decrypt", "impl": "Decryptor", "lean": "dec_decrypt_dispatch", "skeleton": SK_DECRYPT, "consts": {"HE_CIPHERTEXT_SIZE_MIN": UB},
+     "panic_escape": True, "model": "dispatch on the scheme"},
+]
